@@ -89,7 +89,53 @@ def dec(j):
         return fractions.Fraction(int(j['v'][0], 16), int(j['v'][1], 16))
     if t == 'object':
         return Opaque()
+    if t == 'lazy':
+        return make_lazy(j['v'])
     raise ValueError('unknown tag %r' % t)
+
+
+def make_lazy(kind):
+    """Lazy iterables a host may hand over (a generator from a custom function, map/filter/zip objects).
+    They are stateful, so they are only used where every value is decoded fresh (C01)."""
+    if kind == 'gen_ok':
+        return (x for x in [1, 2, 3])
+    if kind == 'gen_raises_midway':
+        def g():
+            yield 1
+            yield 2
+            raise ValueError('iteration failed')
+        return g()
+    if kind == 'gen_raises_xl':
+        from hotxlfp.formulas import error as E
+
+        def g2():
+            yield 1
+            raise E.NUM
+        return g2()
+    if kind == 'map_div0':
+        return map(lambda n: 1 / n, [1, 2, 0, 4])
+    if kind == 'filter':
+        return filter(None, [0, 1, 2])
+    if kind == 'zip':
+        return zip([1, 2], 'ab')
+    if kind == 'range':
+        return range(3)
+    if kind == 'dictview':
+        return {'a': 1}.keys()
+    if kind == 'set':
+        return set([7])
+    if kind == 'frozenset':
+        return frozenset([7])
+    if kind == 'bytearray':
+        return bytearray(b'ab')
+    if kind == 'long_gen':
+        return (x for x in range(5000))
+    raise ValueError(kind)
+
+
+LAZY_KINDS = ['gen_ok', 'gen_raises_midway', 'gen_raises_xl', 'map_div0', 'filter', 'zip', 'range', 'dictview', 'set',
+              'frozenset', 'bytearray', 'long_gen']
+POOL_LAZY = [{'t': 'lazy', 'v': k} for k in LAZY_KINDS]
 
 
 def S(s):
